@@ -117,17 +117,37 @@ Definition same_entries (expected shown : list entry) : bool :=
              | _ => false
              end) expected.
 
+(** (adjusted variants only) the same entries as multisets: when own names are
+    displayed two bindings may look alike *)
+Fixpoint remove_first (f : entry -> bool) (l : list entry) : option (list entry) :=
+  match l with
+  | [] => None
+  | x :: l' => if f x then Some l'
+               else match remove_first f l' with Some r => Some (x :: r) | None => None end
+  end.
+
+Fixpoint same_multi (expected shown : list entry) : bool :=
+  match expected with
+  | [] => match shown with [] => true | _ => false end
+  | e :: rest => match remove_first (entry_same e) shown with
+                 | Some shown' => same_multi rest shown'
+                 | None => false
+                 end
+  end.
+
 Definition dotted (path : list string) (s : string) : string := join "." (path ++ [s]).
 
 (** flat format: full dotted names; a collection's default task also answers
     to the collection's dotted name *)
-Definition flat_expected (c : coll) : list entry :=
+Definition flat_of (bs : list (entry * bool)) : list entry :=
   map (fun eb : entry * bool =>
          let '((path, key, tid, als), dflt) := eb in
          (([] : list string), dotted path key, tid,
           map (dotted path) als ++
           (if (dflt : bool) then match path with [] => [] | _ => [join "." path] end else [])))
-      (bindings c []).
+      bs.
+
+Definition flat_expected (c : coll) : list entry := flat_of (bindings c []).
 
 Definition flat_shown (rows : list row) : option (list entry) :=
   if forallb (fun r => match r_task r with Some _ => true | None => false end) rows then
@@ -180,9 +200,12 @@ Definition entry_normalized (ad : bool) (e : entry) : bool :=
   let '(path, key, _, als) := e in
   forallb (normalized ad) (path ++ key :: als).
 
-(** view: 1 flat, 2 nested, 3 json *)
-Definition listing_ok (c : coll) (view : nat) (obs : result (list row)) : bool :=
-  match bindings c [] with
+(** view: 1 flat, 2 nested, 3 json.  [listing_gen] is parameterised by the
+    expected entries and by whether spellings are judged, for the adjusted
+    variants used in attribution; [listing_ok] is the specification. *)
+Definition listing_gen (strict : bool) (flat_exp rel_exp : list entry) (check_norm : bool) (ad : bool)
+           (view : nat) (obs : result (list row)) : bool :=
+  match rel_exp with
   | [] => true                              (* nothing to list: "No tasks found" *)
   | _ =>
       match obs with
@@ -199,11 +222,15 @@ Definition listing_ok (c : coll) (view : nat) (obs : result (list row)) : bool :
           match shown with
           | None => false
           | Some sh =>
-              same_entries (match view with 1 => flat_expected c | _ => rel_expected c end) sh &&
-              forallb (entry_normalized (c_auto_dash c)) sh
+              (if strict then same_entries (match view with 1 => flat_exp | _ => rel_exp end) sh
+               else same_multi (match view with 1 => flat_exp | _ => rel_exp end) sh) &&
+              (negb check_norm || forallb (entry_normalized ad) sh)
           end
       end
   end.
+
+Definition listing_ok (c : coll) (view : nat) (obs : result (list row)) : bool :=
+  listing_gen true (flat_expected c) (rel_expected c) true (c_auto_dash c) view obs.
 
 (** ** the judgement of one case.  Trees in which bindings of one collection
     collide are outside the statement ([ns_wf], as for C17). *)
